@@ -118,8 +118,8 @@ def replay_file(doc):
         hit = [b for b in r["bad"] if b[0] == doc["clause"]]
         return bool(hit), "\n".join(f"{a}: {b}" for a, b in hit) or "clause holds on this tree"
     if doc.get("kind") == "fn_monitor":
-        from . import fnmon
-        return fnmon.replay(doc)
+        import importlib
+        return importlib.import_module(doc.get("module", "rt.fnmon")).replay(doc)
     raise ValueError("unknown replay kind")
 
 
